@@ -9,7 +9,8 @@ FLOOR = 5
 EXPLANATION = ""
 TRUSTED = []
 ASSUMPTIONS = TRUSTED
+AES = "rp2.abstract_entry_set.AbstractEntrySet"
 
 
 def items(pr):
-    return [fn("rp2.abstract_entry_set.EntrySetIterator.__next__")]
+    return [fn("rp2.abstract_entry_set.EntrySetIterator.__next__"), fn(AES + "._sort_entries"), fn(AES + ".__iter__"), fn(AES + ".duplicate"), fn("rp2.input_data.InputData.__init__")]
